@@ -200,6 +200,92 @@ def rule_invalidated_is_needed(A, R, rule):
              site=A.site(unflagged[0]) if unflagged else "")
 
 
+def requirement_walkers(A):
+    """functions that mark incoming dependencies as needed and walk on to the upstreams (found from the consider handler's facts)"""
+    from rules_more import requirement_field
+    C = A.classes()
+    K = kinds(A)
+    H = A.handler_runs()
+    rf = requirement_field(A)
+    reach = A.reach()
+    walkers = set()
+    for s in sorted(reach):
+        if s in C["Finished"] or s in C["Running"] or s in C["Ready"]:
+            continue
+        run = H[(K["consider"], s)]
+        # (the write itself may sit in a helper: every activation around it counts)
+        wfn = set()
+        for w in run.by_kind("write_edge"):
+            if w["proj"] == rf:
+                wfn.add(w["fn"])
+                wfn |= set(x[0] for x in (w.get("stack") or ()))
+        pfn = set(v["fn"] for v in run.by_kind("push_local")
+                  if any(isinstance(r_, tuple) and r_[0] == "nbr" and r_[2] == "Incoming" for r_ in _flat(v["key"][1])))
+        walkers |= (wfn & pfn)
+    return walkers
+
+
+def rule_walk_reaches_every_ephemeral(A, R, rule, walkers=None):
+    """the other direction of the walk that hands 'needed' upwards: it goes on through *every* upstream Ephemeral that is not
+    finished, whatever the flags of the dependency say already (a dependency can have been flagged on its own - by the validation
+    of one consumer - without the chain above it having been walked): on every path of an iteration over an upstream in such a
+    state the upstream is put into the worklist"""
+    from rules_protocol import key_binding
+    from rules_more import error_exit_blocks, residual_blocks
+    C = A.classes()
+    reach = A.reach()
+    cleanup_kinds = set(A.kind_of(s) for s in C["CleanupOffered"])
+    if walkers is None:
+        walkers = requirement_walkers(A)
+    n = 0
+    for fn in sorted(walkers):
+        body = A.facts.body(fn)
+        for d in sorted(reach):
+            if A.kind_of(d) not in cleanup_kinds or d in C["Finished"]:
+                continue
+            I, fr, out, col = forced_analysis(A, body, {}, cfgd=dict(label="C04W2", default_states=fin(A.L.jobstate, [d]),
+                                                                     flags=("nonempty_nbrs",)))
+            pushes = [x for k, x in I.rec.facts.items() if k[0] == "push_local" and x["fn"] == fn
+                      and any(isinstance(r_, tuple) and r_[0] == "nbr" and r_[2] == "Incoming" for r_ in _flat(x["key"][1]))]
+            ok, why = bool(pushes), "an upstream Ephemeral in this state is never put into the worklist"
+            if pushes:
+                errs = error_exit_blocks(A, body) | residual_blocks(body)
+                es = I.edges.get(fr.fid, set())
+                succ = {}
+                for (a_, b_) in es:
+                    succ.setdefault(a_, []).append(b_)
+                heads = set()
+                for x in pushes:
+                    kb = key_binding(x)
+                    if kb is not None and kb[0] == fr.fid:
+                        heads.add(kb[1])
+                ok = bool(heads)
+                why = "the pushed key is not bound by a loop of the walk itself"
+                pblocks = set(x["bb"] for x in pushes)
+                for head in heads:
+                    t = body.term(head)
+                    if t["k"] != "call" or t["t"] < 0:
+                        ok, why = False, "loop header is not an iterator step"
+                        continue
+                    sw = t["t"]
+                    loop = body.natural_loop(head)
+                    for s0 in [s_ for s_ in succ.get(sw, ()) if s_ in loop]:
+                        seen, st = set(), [s0]
+                        while st:
+                            x_ = st.pop()
+                            if x_ in seen or x_ in pblocks or x_ in errs:
+                                continue
+                            seen.add(x_)
+                            st.extend(succ.get(x_, ()))
+                        if head in seen and s0 not in pblocks:
+                            ok, why = False, ("an iteration over an upstream in this state can complete without putting it into the "
+                                              "worklist (a test on what the dependency is flagged as already ends the walk early)")
+            n += 1
+            R.ob(rule, "%s | an upstream in state %s | the walk that marks dependencies as needed goes on through it on every path"
+                 % (short(fn), A.sname(d)), ok, detail=why, site=A.site(pushes[0]) if pushes else body.span["s"])
+    R.floor(rule, "unfinished Ephemeral upstream states examined in the transitive walk", n, 3)
+
+
 @prop("C04")
 def check_C04(A, R, tier):
     from rules_compare import (invalidated_states, skip_kind, consider_entry_fns, validation_ty, validated_verdict, rule_shielding, STRAT,
@@ -398,15 +484,7 @@ def check_C04(A, R, tier):
     # at all; marking the inputs of a still undecided Output as needed makes its (up-to-date) Ephemeral inputs run for nothing ------
     from rules_more import requirement_field
     rf = requirement_field(A)
-    walkers = set()
-    for s in sorted(reach):
-        if s in C["Finished"] or s in C["Running"] or s in C["Ready"]:
-            continue
-        run = H[(K["consider"], s)]
-        wfn = set(w["fn"] for w in run.by_kind("write_edge") if w["proj"] == rf)
-        pfn = set(v["fn"] for v in run.by_kind("push_local")
-                  if any(isinstance(r_, tuple) and r_[0] == "nbr" and r_[2] == "Incoming" for r_ in _flat(v["key"][1])))
-        walkers |= (wfn & pfn)
+    walkers = requirement_walkers(A)
     R.info["transitive_requirement_walks"] = sorted(short(x) for x in walkers)
     n = 0
     for fn in sorted(walkers):
@@ -422,6 +500,7 @@ def check_C04(A, R, tier):
                         "Ephemeral inputs are executed although it may never run", site=A.site(pushes[0]) if pushes else "")
     if walkers:
         R.floor("R4.7", "upstream states examined in the transitive walk", n, 10)
+    rule_walk_reaches_every_ephemeral(A, R, "R4.7", walkers)
     # R4.8 the other direction (needed work is not lost): when the consider logic learns that a validated Ephemeral whose upstreams are
     # still pending is needed, it marks all of the job's incoming dependencies as needed on every path - otherwise its own
     # up-to-date Ephemeral inputs are judged unnecessary and skipped, and the job later runs without them
